@@ -1,12 +1,17 @@
 """C15 — free row space is exactly the rows minus fixed obstructions."""
 VARIANT = "san"
-RULE = "see stats"
+RULE = ("see stats; includes an object-history stream (counters hist_*): public mutators and computeRows() / computeRows(extra) / "
+        "Row::freespace interleaved on ONE Circuit object, every observation compared with the oracle, with a freshly rebuilt "
+        "circuit of the same observable state and with the model")
 TIMEOUT = {"quick": 1200, "thorough": 3 * 3600, "search": 1800}
 PARTIAL = [
     "boost::polygon itself is not verified: the theorems are about the executable interval model "
     "(Model/Freespace.lean); that Row::freespace / Circuit::computeRows return exactly the model's list, in the "
     "same order, is established by the correspondence stream (exhaustive on the small grid, random to 2^22), "
     "not for all inputs",
+    "that Circuit::computeRows is a function of the public state only (no stale state kept inside the object between calls) is "
+    "checked by the object-history stream (random sequences of every public mutator and 3-8 observations on one object, each "
+    "answer compared with the oracle, the model and a freshly rebuilt circuit), not proved",
 ]
 ASSUMPTIONS = [
     "C++ int arithmetic modelled as unbounded Int (coordinates up to 2^22 in the generated domain; UBSan is on)",
@@ -21,8 +26,12 @@ LEVEL_TEXT = ("Lean 4 theorems over an executable interval model of Row::freespa
               "boost-based C++ by a differential stream: every row and every list of <= 2 obstacles on a small integer grid "
               "(inverted and degenerate rectangles included), random instances with <= 12 obstacles and coordinates to 2^22, "
               "and circuits with all fixed/obstruction flag combinations; the property's clauses are additionally evaluated "
-              "directly on every answer of the real code")
+              "directly on every answer of the real code; an object-history stream interleaves every public mutator (setRows, "
+              "setupRows with all flag combinations, the per-cell setters, setSolution, addNet) with computeRows() / "
+              "computeRows(extra) / Row::freespace on one Circuit object (same observation twice, observation -> one mutator -> "
+              "same observation) and checks each answer against the oracle on the current public state, against a freshly "
+              "constructed circuit rebuilt through the public setters, and against the model")
 LEVEL_NOTE = ("Trusted: Lean kernel (axioms propext/Classical.choice/Quot.sound only), the hand-written model's tie to the "
               "code (differential, bounded by the generator), unbounded Int for C++ int; boost::polygon is covered only "
               "through that tie.")
-TECHNIQUE = "Lean 4 proof (induction over the sorted obstacle sweep) + model/implementation correspondence stream"
+TECHNIQUE = "Lean 4 proof (induction over the sorted obstacle sweep) + model/implementation correspondence stream + object-history stream (metamorphic comparison with a freshly rebuilt circuit)"
